@@ -74,6 +74,7 @@ class C13(runner.Check):
         add("rotation", Q="R513", te=(4, 0), cost=5)
         add("affine", te=(4,), cost=6)
         add("lre==gre", te=(4, 3), cost=6)
+        add("lre==gre", te=(4,), remainder=True, cost=8)  # targets not linear in X: the local and the global fit have non-zero residuals
         add("grd-zero", p=2, Q="R513", te=(4,), cost=6)
         for p in (1, 3):
             add("defined", p=p, Vy="I" if p == 1 else "R35_01", te=(4,), cost=5)
